@@ -111,15 +111,16 @@ type sess struct {
 	dead  bool
 	label string
 
-	view    *view // the state observed after the last operation
-	sysXfer bool  // a plain transfer to aergo.system was executed in this session
-	not39   bool  // a voteBP with a candidate length != 39 was executed
+	view    *view             // the state observed after the last operation
+	lastAct map[string]uint64 // height of the account's last successful stake / unstake / vote
+	sysXfer bool              // a plain transfer to aergo.system was executed in this session
+	not39   bool              // a voteBP with a candidate length != 39 was executed
 }
 
 var dbSeq int
 
 func newSess(run *vh.Run, fd *findings, rng *vh.Rng, fv int32, label string) *sess {
-	s := &sess{run: run, fd: fd, rng: rng, fv: fv, h: 1, label: label}
+	s := &sess{run: run, fd: fd, rng: rng, fv: fv, h: 1, label: label, lastAct: map[string]uint64{}}
 	dbSeq++
 	s.sdb = state.NewChainStateDB()
 	if err := s.sdb.Init(string(db.MemoryImpl), filepath.Join(run.Out, "db", fmt.Sprint(dbSeq)), nil, false, nil); err != nil {
@@ -561,6 +562,15 @@ func (s *sess) fail(what string) {
 
 func minStake() *big.Int { return system.GetStakingMinimum() }
 
+// acted: a successful stake, unstake or vote (re)starts the account's lock periods: the record's When must be
+// the height of that operation (the delays of the property are measured from it).
+func (s *sess) acted(op string, a *acct, post *view) {
+	s.lastAct[hx(a.addr)] = s.h
+	if r := post.stakes[hx(a.addr)]; r == nil || r.GetWhen() != s.h {
+		s.fail(fmt.Sprintf("%s succeeded at height %d but the lock period of the account was not restarted (recorded When: %v)", op, s.h, r))
+	}
+}
+
 func (s *sess) stake(a *acct, amt *big.Int) {
 	if s.dead {
 		return
@@ -586,6 +596,7 @@ func (s *sess) stake(a *acct, amt *big.Int) {
 	}
 	if res == "ok" {
 		s.exact(op, a, pre, post, amt, +1)
+		s.acted(op, a, post)
 	} else {
 		s.unchanged(op, pre, post)
 	}
@@ -623,6 +634,7 @@ func (s *sess) unstake(a *acct, amt *big.Int) {
 	}
 	if res == "ok" {
 		s.exact(op, a, pre, post, amt, -1)
+		s.acted(op, a, post)
 		// votes shrunk by the refresh
 		for _, r := range pre.votes {
 			if bytes.Equal(r.addr, a.addr) && r.amount.Cmp(post.stakes[hx(a.addr)].GetAmountBigInt()) > 0 {
@@ -743,6 +755,8 @@ func (s *sess) voteRule(op, issue string, a *acct, pre, post *view, res string) 
 	}
 	if res != "ok" {
 		s.unchanged(op, pre, post)
+	} else {
+		s.acted(op, a, post)
 	}
 }
 
